@@ -180,6 +180,7 @@ class Program:
         nlogp: list[str] = []
         localnames.restore_private_names({rel: m.tree for rel, m in self.modules.items()}, _inl.known_functions(), nlogp)
         self.normalized += nlogp
+        localnames.set_signatures([m.tree for m in self.modules.values()])
         for rel, mod in self.modules.items():
             nlog0: list[str] = []
             localnames.restore(mod.tree, rel, nlog0)
